@@ -150,42 +150,48 @@ pub struct Recorder {
     pub events: Vec<Value>,
 }
 
+/// the number of the file a span lies in (string-N -> N + 1), 0 when unknown
+fn file_no(s: &Span) -> u64 {
+    s.file.strip_prefix("string-").and_then(|x| x.parse::<u64>().ok()).map(|n| n + 1).unwrap_or(0)
+}
+
 impl slicec::visitor::Visitor for Recorder {
-    fn visit_file(&mut self, _: &SliceFile) {
-        self.events.push(json!({"cb": "file", "id": ""}));
+    fn visit_file(&mut self, f: &SliceFile) {
+        let n = f.relative_path.strip_prefix("string-").and_then(|x| x.parse::<u64>().ok()).map(|n| n + 1).unwrap_or(0);
+        self.events.push(json!({"cb": "file", "id": "", "f": n}));
     }
     fn visit_module(&mut self, m: &Module) {
-        self.events.push(json!({"cb": "module", "id": m.nested_module_identifier()}));
+        self.events.push(json!({"cb": "module", "id": m.nested_module_identifier(), "f": file_no(m.span())}));
     }
     fn visit_struct(&mut self, x: &Struct) {
-        self.events.push(json!({"cb": "struct", "id": x.parser_scoped_identifier()}));
+        self.events.push(json!({"cb": "struct", "id": x.parser_scoped_identifier(), "f": file_no(x.span())}));
     }
     fn visit_interface(&mut self, x: &Interface) {
-        self.events.push(json!({"cb": "interface", "id": x.parser_scoped_identifier()}));
+        self.events.push(json!({"cb": "interface", "id": x.parser_scoped_identifier(), "f": file_no(x.span())}));
     }
     fn visit_enum(&mut self, x: &Enum) {
-        self.events.push(json!({"cb": "enum", "id": x.parser_scoped_identifier()}));
+        self.events.push(json!({"cb": "enum", "id": x.parser_scoped_identifier(), "f": file_no(x.span())}));
     }
     fn visit_operation(&mut self, x: &Operation) {
-        self.events.push(json!({"cb": "operation", "id": x.parser_scoped_identifier()}));
+        self.events.push(json!({"cb": "operation", "id": x.parser_scoped_identifier(), "f": file_no(x.span())}));
     }
     fn visit_custom_type(&mut self, x: &CustomType) {
-        self.events.push(json!({"cb": "custom", "id": x.parser_scoped_identifier()}));
+        self.events.push(json!({"cb": "custom", "id": x.parser_scoped_identifier(), "f": file_no(x.span())}));
     }
     fn visit_type_alias(&mut self, x: &TypeAlias) {
-        self.events.push(json!({"cb": "alias", "id": x.parser_scoped_identifier()}));
+        self.events.push(json!({"cb": "alias", "id": x.parser_scoped_identifier(), "f": file_no(x.span())}));
     }
     fn visit_field(&mut self, x: &Field) {
-        self.events.push(json!({"cb": "field", "id": x.parser_scoped_identifier()}));
+        self.events.push(json!({"cb": "field", "id": x.parser_scoped_identifier(), "f": file_no(x.span())}));
     }
     fn visit_parameter(&mut self, x: &Parameter) {
-        self.events.push(json!({"cb": "parameter", "id": x.parser_scoped_identifier()}));
+        self.events.push(json!({"cb": "parameter", "id": x.parser_scoped_identifier(), "f": file_no(x.span())}));
     }
     fn visit_enumerator(&mut self, x: &Enumerator) {
-        self.events.push(json!({"cb": "enumerator", "id": x.parser_scoped_identifier()}));
+        self.events.push(json!({"cb": "enumerator", "id": x.parser_scoped_identifier(), "f": file_no(x.span())}));
     }
     fn visit_type_ref(&mut self, x: &TypeRef) {
-        self.events.push(json!({"cb": "type_ref", "id": x.type_string()}));
+        self.events.push(json!({"cb": "type_ref", "id": x.type_string(), "f": 0}));
     }
 }
 
